@@ -43,6 +43,9 @@ class C14(conncheck.ConnCheck):
                     for b in APPS[i:]:
                         out.append({'name': 't/%s/%s+%s' % (ap, a, b), 'server': SERVER, 'handshake': ['hs-ok', 'hs-with-frame', 'hs-deflate'],
                                     'app': [a] if a == b else [a, b], 'depth': d, 'max_dev': 2, 'auto_pong': ap})
+        for ap in (True, False):
+            out.append({'name': 'tls/%s' % ap, 'url': 'wss://example.com/x', 'server': SERVER, 'handshake': ['hs-ok', 'hs-deflate'], 'app': APPS[:1],
+                        'depth': d if tier == 'thorough' else 3, 'max_dev': 1, 'auto_pong': ap})
         return out
 
     def make_model(self, ex, cfg):
